@@ -149,6 +149,11 @@ class SourceMapping:
         self.line = line_number
         self.column = column
 
+    def __eq__(self, other: object) -> bool:
+        if not isinstance(other, SourceMapping) or isinstance(other, MacroSourceMapping):
+            return False
+        return self.line == other.line and self.column == other.column
+
     def serialize(self) -> list[Any]:
         return [self.line, self.column]
 
@@ -192,6 +197,19 @@ class MacroSourceMapping(SourceMapping):
         # The mapping of parameter values for the current macro context, only for informational
         # purposes. Contains the string representation or integer value
         self.parameter_mapping = parameter_mapping
+
+    def __eq__(self, other: object) -> bool:
+        if not isinstance(other, MacroSourceMapping):
+            return False
+        return (
+            self.relpath_included_file == other.relpath_included_file
+            and self.macro_name == other.macro_name
+            and self.line == other.line
+            and self.column == other.column
+            and self.called_in == other.called_in
+            and self.return_addr == other.return_addr
+            and self.parameter_mapping == other.parameter_mapping
+        )
 
     def serialize(self) -> list[Any]:
         return [
@@ -298,7 +316,12 @@ class SourceMap:
     def __eq__(self, other: object) -> bool:
         if not isinstance(other, SourceMap):
             return False
-        return self._mappings == other._mappings and self._position_marks == other._position_marks
+        return (
+            self._mappings == other._mappings
+            and self._position_marks == other._position_marks
+            and self._mappings_macros == other._mappings_macros
+            and self._position_marks_macro == other._position_marks_macro
+        )
 
     def __str__(self) -> str:
         return self.serialize()
